@@ -1,5 +1,6 @@
 """C02 - after unsubscribe() returns the subscriber is never called again."""
 from common import *
+import ileave
 import gen
 import tgen
 import c04
@@ -111,12 +112,13 @@ def run(tier, seed, replay=None):
     if replay:
         cases = load_replay_case(replay)
     else:
-        cases = timed_cases(tier, rng) + chain_cases(tier, rng) + op2_cases(tier, rng) + flatten_cases(tier, rng)
+        cases = (timed_cases(tier, rng) + chain_cases(tier, rng) + op2_cases(tier, rng) + flatten_cases(tier, rng)
+                 + ileave.cases("subject", tier, rng, "is", only=lambda setup, threads: any("unsub" in t for t in threads)))
     correspond(rep, "C02", cases, "C02 (silence after unsubscribe: timed_ok / cut specifications / silent_after_unsub)")
     c = rep.coverage
     hist = {}
     for _, _, t in cases:
-        key = "%s/%s/%s" % (t.get("kind"), t.get("op"), t.get("how"))
+        key = "%s/%s/%s" % (t.get("kind"), t.get("op"), t.get("how")) if "threads" not in t else "interleavings/%d threads" % t["threads"]
         hist[key] = hist.get(key, 0) + 1
     c["generator_distribution"] = hist
     c["exhaustive"] = False
@@ -126,7 +128,7 @@ def run(tier, seed, replay=None):
                  "behind a Subject x scripts <= 3 x every cut position; (c) the 8 two-input combinators x script pairs <= 2 x all interleavings x every "
                  "cut position, both inputs emitting afterwards; (d) flattening operators x all stimulus sequences <= 4 x every cut position, hot "
                  "inner observables and the outer stream emitting afterwards; observation = everything delivered, judged by 'nothing after the "
-                 "unsubscribe returned' and compared with the model")
-    rep.assumptions = ["single-threaded: the lock-level interleavings of an unsubscribing thread with an emitting thread are not explored by this check",
+                 "unsubscribe returned' and compared with the model; (e) an unsubscribing thread against emitting threads: " + ileave.RULE)
+    rep.assumptions = ["the lock-level interleavings of an unsubscribing thread with an emitting thread are explored on SubjectThreads only (schedules with a bounded number of context switches, and random ones)",
                        "share()/ref_count pipelines are decided under C11"]
     return rep.finish()
